@@ -379,6 +379,38 @@ func runC16(c C16Case) (st Stats, err error) {
 				return st, violf("zero-recv/decoded-wrong", "decoded stack differs from the input: %v\n  input %#v", e, in)
 			}
 			st.Class("zero-recv-decoded")
+			// the receiver is now an initialised Stack like any other (and so is every Stack the decoder
+			// built inside it): a further Marshal must add the decoded Stack as one new element
+			targets := []stackage.Stack{r}
+			for i := 0; i < r.Len(); i++ {
+				if x, _ := r.Index(i); x != nil {
+					if ns, ok := x.(stackage.Stack); ok && ns.IsInit() && !ns.IsReadOnly() {
+						if i < len(c.In)-1 && c.In[i+1].K == "list" { // built by the decoder, not a ready-made value
+							targets = append(targets, ns)
+							break
+						}
+					}
+				}
+			}
+			for ti, tgt := range targets {
+				n0 := tgt.Len()
+				var e2 error
+				if p := guard(func() { e2 = tgt.Marshal(mInValues(c.In)...) }); p != "" {
+					return st, violf("second-marshal/panic", "a second Marshal into the decoded receiver panicked: %s", p)
+				}
+				if tgt.Len() != n0+1 {
+					return st, violf("second-marshal/nothing-added", "Marshal into a Stack that an earlier Marshal built (target %d: %s, Len %d, Cap %d) added nothing (err=%v)\n  input %#v", ti, tgt.Kind(), n0, tgt.Cap(), e2, in)
+				}
+				last, _ := tgt.Index(n0)
+				s2, ok := last.(stackage.Stack)
+				if !ok {
+					return st, violf("second-marshal/element-type", "second Marshal added %T, want the decoded Stack", last)
+				}
+				if e := matchDecodedStack(s2, c.In, "R.second"); e != nil {
+					return st, violf("second-marshal/decoded-wrong", "element added by the second Marshal differs from the input: %v", e)
+				}
+			}
+			st.Class("second-marshal-into-decoded")
 		} else if len(c.In) > 0 && c.In[0].K == "junk" && merr == nil {
 			// unrecognised string first element => BASIC holding all entries
 			if r.Kind() != "BASIC" || r.Len() != len(c.In) {
